@@ -36,7 +36,13 @@ specfn('''
 def mol_wellposed(m):
     return forall(lambda k: implies(0 <= k and k < len(m._elements) and isinstance(m._elements[k], Stochastic), wellposed_s(m._elements[k])))
 ''')
+specfn('''
+def open_after_element(e, m, had_prefix):
+    return (implies(isinstance(e, Stochastic) and e.right_terminal.descriptor == '', len(m.bond_descriptors) == 0)
+            and implies(isinstance(e, SmilesToken), len(m.bond_descriptors) == len(e.bond_descriptors) - ite(had_prefix, 1, 0)))
+''')
 _MG = {
+    "open_after_element(self._elements[len(self._elements) - 1], result, len(self._elements) > 1 or not is_none(prefix))": "open-descriptors-are-those-the-last-element-leaves",
     "molgen_wf(result)": "returns-a-well-formed-generator-owned-molecule",
     "last_gen_mol is self and last_gen_result is result": "ghost-records-the-component",
     "acc == old(acc)": "accumulated-mass-untouched",
@@ -59,12 +65,13 @@ contract("molecule.Molecule.generate",
          ensures=list(_MG), labels=_MG,
          ghost_on_return=["last_gen_mol = self", "last_gen_result = result"],
          # the representation invariant after an element is the callee's own postcondition: its proof needs no other quantified fact
-         uses={"loop1:2": ["Stochastic.generate:returns-a-well-formed-molecule", "SmilesToken.generate:returns-a-well-formed-molecule"]},
+         uses={"loop1:3": ["Stochastic.generate:returns-a-well-formed-molecule", "SmilesToken.generate:returns-a-well-formed-molecule"]},
          raises_may={"RuntimeError": "True", "ValueError": "True", "IndexError": "True", "TypeError": "True", "NotImplementedError": "True", "Exception": "True"},
          modifies=_MG_OWNED + _MG_GHOSTS,
          loops={1: dict(anchor="element in self._elements", locals={"my_mol": NRef("MolGen")},
                         modifies=_MG_OWNED + _MG_LOOP_GHOSTS,
                         inv=["implies(_i1 == 0, my_mol is prefix)", "implies(_i1 > 0, not is_none(my_mol))",
+                             "implies(_i1 > 0, open_after_element(self._elements[_i1 - 1], my_mol, _i1 > 1 or not is_none(prefix)))",
                              "implies(not is_none(my_mol), molgen_wf(my_mol))"])})
 
 contract("core.BigSMILESbase.generate", props=["C13", "C15"],
